@@ -132,6 +132,26 @@ Section RemovalSafe.
       + apply (try_rm_step_safe s0 s' (D0 ++ done) w1 p HR1 Hnlp). intros wq. apply HI.
     - rewrite app_nil_r. exact HR.
   Qed.
+  (** [removeIfSymlink] where no link is: one Lstat *)
+  Lemma remove_if_symlink_safe (w : world) (p : str) :
+    quiet w -> swf (V w) -> snolinkpar (V w) p ->
+    (forall n, V w !! p = Some n -> node_kind n <> KLink) -> I w ->
+    safe I (remove_if_symlink a p) w.
+  Proof.
+    intros Hq Hwf Hnlp Hnl HI. unfold remove_if_symlink.
+    assert (Hs : safe I (try_ (a_lstat a p)) w).
+    { apply safe_try. apply safe_call; [apply (claw_lstat _ _ HCa) | exact Hq | exact HI]. }
+    destruct (V w !! p) as [n|] eqn:Hp.
+    - destruct (law_lstat_some _ _ _ _ _ _ _ _ _ HLa w p n Hq Hwf Hnlp Hp)
+        as (fi & (w' & Hrun & HV & Hsr) & Him & _).
+      eapply safe_bind_ok; [exact (try_ok _ w w' fi Hrun) | exact Hs |]. cbv beta iota.
+      pose proof (Hnl n eq_refl) as Hk. rewrite <- (proj1 Him) in Hk.
+      destruct (fi_kind fi); [apply safe_ret | apply safe_ret | contradiction Hk; reflexivity].
+    - destruct (law_lstat_none _ _ _ _ _ _ _ _ _ HLa w p Hq Hwf Hnlp Hp)
+        as (e & w' & Hrun & Hnf & HV & Hsr).
+      eapply safe_bind_ok; [exact (try_err _ w w' e Hrun) | exact Hs |]. cbv beta iota.
+      unfold not_found in Hnf. rewrite Hnf. apply safe_ret.
+  Qed.
 End RemovalSafe.
 
 (* ------------------------------------------------------------------ *)
@@ -252,12 +272,24 @@ Section RollbackSafe.
     Lemma dir_step_safe (R : list str) (w : world) (p : str) (fi : finfo) :
       prog R w -> infos !! p = Some (Some fi) -> p <> s_root -> fi_kind fi = KDir -> ~ In p R ->
       (forall a, In a (ancestors p) -> a <> s_root -> In a R) -> IA w ->
-      safe IA (copy_dir base p fi) w.
+      safe IA (remove_if_symlink base p ;;; copy_dir base p fi) w.
     Proof.
-      intros HP Hi Hne Hk Hnin Hanc HA.
+      intros HP0 Hi Hne Hk Hnin Hanc HA0.
       destruct (some_orig Vb Vk B0 w0 Hinv p fi Hi) as (n0 & Hn0 & Him).
-      pose proof (prog_sdirect Vb Vk B0 HwfB w0 Hinv s1 R w p fi HP Hi Hanc) as Hdir.
       destruct (info_ids_nonneg fi n0 Him) as [Hu Hg].
+      (* removeIfSymlink: the entry, if there is one, is a directory *)
+      pose proof HP0 as (Hq0 & Hwf0 & _ & _ & _).
+      pose proof (sdirect_snolinkpar _ _ (prog_sdirect Vb Vk B0 HwfB w0 Hinv s1 R w p fi HP0 Hi Hanc)) as Hnlp0.
+      assert (Hnl0 : forall n, Vb w !! p = Some n -> node_kind n <> KLink).
+      { intros n Hp. rewrite (prog_kind Vb Vk B0 w0 Hinv s1 Hs1_keep R w p fi n HP0 Hnin Hi Hp), Hk. discriminate. }
+      destruct (remove_if_symlink_nolink base Vb Vk tnb accb rhb whb hid anc HLb w p Hq0 Hwf0 Hnlp0 Hnl0)
+        as (wr & Hris & HVr & Hsrr).
+      eapply safe_bind_ok; [exact Hris | |].
+      { exact (remove_if_symlink_safe base Vb Vk tnb accb rhb whb hid anc HLb HCb IA w p Hq0 Hwf0 Hnlp0 Hnl0 HA0). }
+      pose proof (Prog_read Vb Vk B0 w0 s1 R w wr HP0 (quiet_same_rest Vk w wr Hq0 Hsrr) HVr (proj1 Hsrr)) as HP.
+      pose proof (IA_views w wr HA0 HVr (proj1 Hsrr)) as HA.
+      clear Hq0 Hwf0 Hnlp0 Hnl0 Hris HVr Hsrr HP0 HA0 w. rename wr into w.
+      pose proof (prog_sdirect Vb Vk B0 HwfB w0 Hinv s1 R w p fi HP Hi Hanc) as Hdir.
       pose proof HP as (Hq & Hwf & HVk & _ & _).
       assert (Hcase : Vb w !! p = None \/ sdir (Vb w) p).
       { destruct (Vb w !! p) as [n|] eqn:Hp; [right | left; reflexivity].
@@ -301,24 +333,34 @@ Section RollbackSafe.
       pose proof (quiet_same_rest Vb wa wb Hqa Hsrb) as Hqb.
       pose proof (Prog_read Vb Vk B0 w0 s1 R wa wb HPa Hqb (proj1 Hsrb) HVkb) as HPb.
       assert (Hk2 : fi_kind fi2 = KFile) by exact (proj1 Him2).
-      pose proof HPb as (_ & Hwfb & HVkb0 & _ & _).
-      assert (Hwfkb : swf (Vk wb)) by (rewrite HVkb0; exact Hwfk0).
-      assert (Hpkb : Vk wb !! p = Some (File m0 c0)) by (rewrite HVkb0; exact Hnk).
-      pose proof (prog_sdirect Vb Vk B0 HwfB w0 Hinv s1 R wb p fi HPb Hi Hanc) as Hdir.
-      assert (Hcase : Vb wb !! p = None \/ exists m1 c1, Vb wb !! p = Some (File m1 c1)).
-      { destruct (Vb wb !! p) as [n|] eqn:Hp; [right | left; reflexivity].
-        pose proof (prog_kind Vb Vk B0 w0 Hinv s1 Hs1_keep R wb p fi n HPb Hnin Hi Hp) as Hkn. rewrite Hk in Hkn.
+      (* removeIfSymlink on the base: the entry, if there is one, is a regular file *)
+      pose proof HPb as (_ & Hwfb1 & _ & _ & _).
+      pose proof (sdirect_snolinkpar _ _ (prog_sdirect Vb Vk B0 HwfB w0 Hinv s1 R wb p fi HPb Hi Hanc)) as Hnlpb.
+      assert (Hnlb : forall n, Vb wb !! p = Some n -> node_kind n <> KLink).
+      { intros n Hp. rewrite (prog_kind Vb Vk B0 w0 Hinv s1 Hs1_keep R wb p fi n HPb Hnin Hi Hp), Hk. discriminate. }
+      destruct (remove_if_symlink_nolink base Vb Vk tnb accb rhb whb hid anc HLb wb p Hqb Hwfb1 Hnlpb Hnlb)
+        as (wr & Hris & HVr & Hsrr).
+      pose proof (quiet_same_rest Vk wb wr Hqb Hsrr) as Hqr.
+      pose proof (Prog_read Vb Vk B0 w0 s1 R wb wr HPb Hqr HVr (proj1 Hsrr)) as HPr.
+      pose proof HPr as (_ & Hwfb & HVkb0 & _ & _).
+      assert (Hwfkb : swf (Vk wr)) by (rewrite HVkb0; exact Hwfk0).
+      assert (Hpkb : Vk wr !! p = Some (File m0 c0)) by (rewrite HVkb0; exact Hnk).
+      pose proof (prog_sdirect Vb Vk B0 HwfB w0 Hinv s1 R wr p fi HPr Hi Hanc) as Hdir.
+      assert (Hcase : Vb wr !! p = None \/ exists m1 c1, Vb wr !! p = Some (File m1 c1)).
+      { destruct (Vb wr !! p) as [n|] eqn:Hp; [right | left; reflexivity].
+        pose proof (prog_kind Vb Vk B0 w0 Hinv s1 Hs1_keep R wr p fi n HPr Hnin Hi Hp) as Hkn. rewrite Hk in Hkn.
         destruct n as [m | m c | m t]; simpl in Hkn; try discriminate Hkn.
         exists m, c. reflexivity. }
       destruct (copy_file_spec base backup Vb Vk tnb tnk accb acck rhb rhk whb whk hid nohid anc nohid HLb HLk
-                  wb p fi h p m0 c0 Hqb Hwfb Hwfkb Hdir Hk Hu Hg Hcase Hrh Hpkb (Hsmall p m0 c0 Hn0)
+                  wr p fi h p m0 c0 Hqr Hwfb Hwfkb Hdir Hk Hu Hg Hcase Hrh Hpkb (Hsmall p m0 c0 Hn0)
                   (orig_not_hid hid anc B0 Hloc p _ Hn0))
         as (wc & m' & Hcp & (Hsrc & Hwfc & Heqvc) & Hpc & Hmeta & Hmt).
-      pose proof (quiet_same_rest Vk wb wc Hqb Hsrc) as Hqc.
+      pose proof (quiet_same_rest Vk wr wc Hqr Hsrc) as Hqc.
       (* the states before each call *)
       assert (HAa : IA wa) by (exact (IA_views w wa HA (proj1 Hsra) HVka)).
       assert (HAb : IA wb) by (exact (IA_views wa wb HAa (proj1 Hsrb) HVkb)).
-      assert (HAc : IA wc) by (exact (IA_step wb wc p HAb Htr (proj1 Hsrc) Heqvc)).
+      assert (HAr : IA wr) by (exact (IA_views wb wr HAb HVr (proj1 Hsrr))).
+      assert (HAc : IA wc) by (exact (IA_step wr wc p HAr Htr (proj1 Hsrc) Heqvc)).
       unfold restore_file.
       eapply safe_bind_ok; [exact (try_ok _ w wa h Hopen) | |].
       { apply safe_try. apply safe_call; [apply (claw_open _ _ HCk) | exact Hq | exact HA]. }
@@ -327,12 +369,16 @@ Section RollbackSafe.
       { apply safe_try. apply safe_call; [apply atomic_hstat | exact Hqa | exact HAa]. }
       cbv beta iota. rewrite Hk2.
       eapply safe_bind_ok; [reflexivity | apply safe_ret |]. cbv beta iota.
-      eapply safe_bind_ok; [exact (try_ok _ wb wc tt Hcp) | |].
+      eapply safe_bind_ok; [exact (try_ok _ wb wr tt Hris) | |].
+      { apply safe_try.
+        exact (remove_if_symlink_safe base Vb Vk tnb accb rhb whb hid anc HLb HCb IA wb p Hqb Hwfb1 Hnlpb Hnlb HAb). }
+      cbv beta iota.
+      eapply safe_bind_ok; [exact (try_ok _ wr wc tt Hcp) | |].
       { apply safe_try. eapply safe_mono;
           [| exact (copy_file_safe base backup Vb Vk tnb tnk accb acck rhb rhk whb whk hid nohid anc nohid HLb HLk HCb
-                      (fun _ => True) wb p fi h p m0 c0 Hqb Hwfb Hwfkb Hdir Hk Hu Hg Hcase Hrh Hpkb
+                      (fun _ => True) wr p fi h p m0 c0 Hqr Hwfb Hwfkb Hdir Hk Hu Hg Hcase Hrh Hpkb
                       (Hsmall p m0 c0 Hn0) I (fun _ _ _ => I) (orig_not_hid hid anc B0 Hloc p _ Hn0))].
-        intros wq Hm. exact (IA_mid wb wq p HAb Htr Hm). }
+        intros wq Hm. exact (IA_mid wr wq p HAr Htr Hm). }
       apply safe_bind_silent; [| intros x; apply silent_lift_res].
       apply safe_try. apply safe_call; [apply atomic_hclose | exact Hqc | exact HAc].
     Qed.
@@ -424,7 +470,7 @@ Section RollbackSafe.
     Lemma dirs_pass_safe (w : world) :
       prog [] w ->
       safe IA (collect_errs (fun p => match info_of_key infos p with
-                                      | Some fi => copy_dir base p fi
+                                      | Some fi => remove_if_symlink base p ;;; copy_dir base p fi
                                       | None => fail EOther end) (sort_least lds)) w.
     Proof.
       intros HP.
